@@ -35,7 +35,7 @@ def path_census(cache):
 def run(ctx):
     rng = ctx.rng
     modes = drv.QUICK_MODES if ctx.quick else drv.ALL_MODES
-    nc = 60 if ctx.quick else 1500
+    nc = 250 if ctx.quick else 4000
     ctx.rule = ("cache = 5-25 operations (writes with all metadata shapes / times / raw metadata / algorithms, "
                 "removals, re-writes) over hostile and random keys. Direction A: the library writes (each mode), "
                 "then the reference implementation decodes the tree: path census, byte-level record grammar, "
